@@ -378,6 +378,10 @@ func streamCase(st *stats, pairName, writerKind, readerKind string, seed int64) 
 		byteBufferCase(st, seed)
 		return
 	}
+	if pairName == "sequence" {
+		seqCase(st, writerKind, seed)
+		return
+	}
 	p := pairByName[pairName]
 	rng := rand.New(rand.NewSource(seed))
 	nItems := 1 + rng.Intn(5)
